@@ -409,10 +409,10 @@ Fixpoint helapsed (h : list hop) : Z :=
 Definition hwf (h : list hop) : Prop :=
   Forall (fun o => match o with HTick d => 0 <= d | HReq n => 0 <= n end) h.
 
-Fixpoint admitted (evs : list tevent) : Z :=
+Fixpoint granted_sum (evs : list tevent) : Z :=
   match evs with
   | [] => 0
-  | e :: r => (if ev_ok e then ev_n e else 0) + admitted r
+  | e :: r => (if ev_ok e then ev_n e else 0) + granted_sum r
   end.
 
 Definition in_win (s t : Z) (e : tevent) : bool := (s <=? ev_sec e) && (ev_sec e <=? s + t).
@@ -564,17 +564,17 @@ Section Token.
     (T <= s + t -> adm + L <= cap + rate * Z.max 0 (T - s)) /\ adm <= cap + rate * t.
 
   Lemma bound_gen s t reqs : 0 <= t -> forall T L adm, pot_inv s t T L adm -> mono T reqs ->
-    adm + admitted (filter (in_win s t) (strace (L, T) reqs)) <= cap + rate * t.
+    adm + granted_sum (filter (in_win s t) (strace (L, T) reqs)) <= cap + rate * t.
   Proof.
     intro Ht. induction reqs as [|[now n] r IH]; intros T L adm (HL & H1 & H2 & H3) M.
-    - cbn [strace filter admitted]. lia.
+    - cbn [strace filter granted_sum]. lia.
     - destruct M as (M1 & M2 & M3). cbn [strace]. unfold btake, blevel. cbn [fst snd]. rewrite !Z.mul_1_r.
       set (lvl := Z.min cap (L + (now - T) * rate)).
       assert (P0 : 0 <= (now - T) * rate) by (apply Z.mul_nonneg_nonneg; lia).
       assert (LV : 0 <= lvl <= cap) by (unfold lvl; lia).
       assert (LV2 : lvl <= L + (now - T) * rate) by (unfold lvl; lia).
       destruct (n <=? lvl) eqn:G; cbn [filter]; unfold in_win; cbn [ev_sec ev_n ev_ok];
-        destruct ((s <=? now) && (now <=? s + t)) eqn:W; cbn [admitted ev_ok ev_n].
+        destruct ((s <=? now) && (now <=? s + t)) eqn:W; cbn [granted_sum ev_ok ev_n].
       + (* granted inside the window *)
         rewrite Z.add_assoc. apply IH; [|assumption]. unfold pot_inv.
         assert (S1 : s <= now) by lia. assert (S2 : now <= s + t) by lia.
@@ -609,7 +609,7 @@ Section Token.
   Qed.
 
   Lemma bucket_bound s t b reqs : 0 <= t -> 0 <= fst b <= cap -> mono (snd b) reqs ->
-    admitted (filter (in_win s t) (strace b reqs)) <= cap + rate * t.
+    granted_sum (filter (in_win s t) (strace b reqs)) <= cap + rate * t.
   Proof.
     intros Ht HL M. destruct b as [L T]. cbn [fst snd] in *.
     pose proof (bound_gen s t reqs Ht T L 0) as B. rewrite Z.add_0_l in B. apply B; [|assumption].
@@ -664,7 +664,7 @@ Section Token.
   Lemma token_bound t0 s0 h stf evs s t :
     alookup Nat.eqb kt s0 = None -> alookup Nat.eqb ks s0 = None -> hwf h -> 0 <= t ->
     hrun c (t0, s0) h = Some (stf, evs) ->
-    admitted (filter (in_win s t) evs) <= cap + rate * t.
+    granted_sum (filter (in_win s t) evs) <= cap + rate * t.
   Proof.
     intros E1 E2 W Ht R. destruct (token_refines t0 s0 h E1 E2 W) as (stf' & R'). rewrite R in R'. inversion R'; subst.
     apply bucket_bound; [assumption|unfold binit; cbn [fst]; lia|].
